@@ -72,8 +72,24 @@ def statements(plans):
                 out.append(dict(base, seq=seq, msgs=list(n['msgs'])))
     return out
 
+FORMS = ('named', 'v', 'namedv', 'long')
+
 def stmt_cpp(s):
-    return '%s(obj, %s())%s;' % (HEADM[s['head']], KFN[s['k']], ''.join(clause_cpp(c, s['k']) for c in s['seq']))
+    """the statement in one of the macro forms: plain scoped, NAMED_, the C++11-style _V forms (clauses as a macro argument), TROMPELOEIL_-prefixed"""
+    head, call = HEADM[s['head']], '%s()' % KFN[s['k']]
+    cl = ''.join(clause_cpp(c, s['k']) for c in s['seq'])
+    form = s.get('form', 'plain')
+    if form == 'named':
+        return 'auto e = NAMED_%s(obj, %s)%s; (void)e;' % (head, call, cl)
+    if form == 'v':
+        return '%s_V(obj, %s%s);' % (head, call, (', ' + cl) if cl else '')
+    if form == 'namedv':
+        return 'auto e = NAMED_%s_V(obj, %s%s); (void)e;' % (head, call, (', ' + cl) if cl else '')
+    if form == 'long':
+        lcl = re.sub(r'\.(LR_)?(WITH|SIDE_EFFECT|RETURN|THROW|TIMES|RT_TIMES|IN_SEQUENCE)\(', lambda m: '.TROMPELOEIL_%s%s(' % (m.group(1) or '', m.group(2)), cl)
+        lcl = lcl.replace('(AT_LEAST(', '(TROMPELOEIL_AT_LEAST(')
+        return 'TROMPELOEIL_%s(obj, %s)%s;' % (head, call, lcl)
+    return '%s(obj, %s)%s;' % (head, call, cl)
 
 def compile_tu(args):
     path, std, incs = args[:3]
@@ -281,13 +297,20 @@ def run_c19(prop, tier, seed, t0):
     nviol, out_lines = 0, []
     results = run_stmts(stmts, os.path.join(work, 's20'), 'c++20', 'ts20')
     results += run_stmts(plain, os.path.join(work, 's14'), 'c++14', 'ts14')
+    # the verdict of a statement does not depend on the macro form it is written in: NAMED_, _V (C++11 style), NAMED_..._V, TROMPELOEIL_-prefixed.
+    # quick: one seeded alternative form per statement; thorough: all four
+    alts = []
+    for sidx, st_ in enumerate(plain):
+        for f_ in (FORMS if tier == 'thorough' else (FORMS[(sidx + seed) % len(FORMS)],)):
+            alts.append(dict(st_, form=f_))
+    results += run_stmts(alts, os.path.join(work, 'f14'), 'c++14', 'tf14')
     if tier == 'thorough':
         results += run_stmts(plain, os.path.join(work, 's17'), 'c++17', 'ts17')
         if shutil.which('clang++'):
             results += run_stmts(plain, os.path.join(work, 'c14'), 'c++14', 'tc14', compiler='clang')   # a second compiler (clang 14)
     bad = [r for r in results if not r[1]]
     for (s, ok, detail, path, ln) in bad[:15]:
-        name = '%s-%s-%s-%s' % (prop, s['k'], s['head'], '_'.join(s['seq']) or 'none')
+        name = '%s-%s-%s%s-%s' % (prop, s['k'], s['head'], ('.' + s['form']) if s.get('form') else '', '_'.join(s['seq']) or 'none')
         rpath = os.path.join(rp, name[:150] + '.txt')
         open(rpath, 'w').write('statement: %s\nspec verdict (required diagnostics; empty = must compile): %s\n%s\nsource: %s line %d\n'
                                % (stmt_cpp(s) if s['k'] != '-' else '-', s['msgs'], detail, path, ln))
